@@ -431,6 +431,8 @@ def run(chk):
     chk.guard(rule_r4, chk)
     chk.guard(rule_r5, chk)
     chk.guard(rule_r7, chk)
+    from .. import unused as _unused
+    chk.guard(_unused.apply, chk, "C04-R91")
     from .. import args as _args
     chk.guard(_args.apply, chk, "C04-R90", {'equations', 'parsers', 'sources'}, 1)
     chk.assumptions = [
